@@ -2,6 +2,7 @@ package main
 
 import (
 	"fmt"
+	"os"
 	"sort"
 	"strings"
 
@@ -60,6 +61,15 @@ func init() {
 	}
 	offset := 0
 	i.Identifier = binary.BigEndian.Uint16(data[:2])`, Expect: "B1-bounds"},
+		Mutant{Prop: "C08", Name: "addr-header-length-undercounted", File: "pkg/slayers/scion.go",
+			Old: `	return 2*addr.IABytes + s.DstAddrType.Length() + s.SrcAddrType.Length()`,
+			New: `	return 2*addr.IABytes + s.DstAddrType.Length()`, Expect: "B1-bounds"},
+		Mutant{Prop: "C08", Name: "negative-path-length-accepted", File: "pkg/slayers/scion.go",
+			Old: `	if pathLen < 0 {`, New: `	if pathLen < -4 {`, Expect: "B1-bounds"},
+		Mutant{Prop: "C08", Name: "stun-padding-in-uint16", File: "pkg/stun/stun.go",
+			Old: `		attrLen := int(binary.BigEndian.Uint16(b[2:4]))
+		attrLenWithPad := (attrLen + 3) &^ 3`, New: `		attrLen := binary.BigEndian.Uint16(b[2:4])
+		attrLenWithPad := int((attrLen + 3) &^ 3)`, Expect: "B1-bounds"},
 		Mutant{Prop: "C08", Name: "procid-length-check-weakened", File: "router/underlayproviders/udpip/udpip.go",
 			Old: `	if len(data) < slayers.CmnHdrLen+addrHdrLen {`, New: `	if len(data) < addrHdrLen {`, Expect: "B1-bounds"},
 		Mutant{Prop: "C08", Name: "auth-header-not-in-headroom-check", File: dp,
@@ -103,9 +113,6 @@ type c08Audit struct {
 // Undischarged sites per function that were read and found safe, with the
 // invariant they rest on. A function not listed here may not contain any.
 var c08Audited = map[string]c08Audit{
-	"(*pkg/slayers.SCION).DecodeFromBytes":    {1, "path bytes data[offset:offset+pathLen]: pathLen >= 0 and len(data) >= offset+pathLen are tested just above (minLen); the two bounds are sums of the same terms"},
-	"(*pkg/slayers.SCION).DecodeAddrHdr":      {2, "len(data) >= AddrHdrLen() = 16 + dst.Length() + src.Length() is tested on entry; both slices end at or before that sum"},
-	"(*pkg/slayers.SCION).SerializeAddrHdr":   {2, "mirror of DecodeAddrHdr: len(buf) >= AddrHdrLen() tested on entry"},
 	"(*pkg/slayers.SCION).SerializeTo":        {9, "buf = PrependBytes(CmnHdrLen + AddrHdrLen() + Path.Len()): constant offsets below 12, then buf[12:] and buf[12+AddrHdrLen():] lie inside that length"},
 	"(*pkg/slayers.SCION).pseudoHeaderChecksum": {2, "loops i+=2 over RawDstAddr/RawSrcAddr whose length is AddrType.Length() in {4,8,12,16} (even), set by DecodeAddrHdr; SVC/IPv4/IPv6 setters keep it"},
 	"(*pkg/slayers.EndToEndExtn).DecodeFromBytes": {1, "decodeExtnBase established len(data) >= ActualLen; offset starts at 2 and the loop runs while offset < ActualLen"},
@@ -127,7 +134,6 @@ var c08Audited = map[string]c08Audit{
 	"(*pkg/slayers/path/scion.Decoded).SerializeTo":     {2, "len(b) >= Len() tested on entry; loops over the element slices"},
 	"(*pkg/slayers/path/scion.Decoded).Reverse":         {11, "NumINF == 0 rejected on entry; InfoFields/HopFields have NumINF/NumHops elements (DecodeFromBytes / ToDecoded), SegLen is a [3]uint8 and NumINF <= 3"},
 	"(*pkg/slayers/path/epic.Path).SerializeTo":         {4, "len(b) >= Len() = 16 + ScionPath.Len() tested on entry; PHVF/LHVF length 4 tested as well"},
-	"(*pkg/slayers/path/epic.PktID).SerializeTo":        {2, "callers pass at least 8 bytes (epic.Path.SerializeTo after its length test; prepareMacInput's buffer of MACBufferSize)"},
 	"pkg/slayers/path.FullMAC":                 {2, "h.Sum(buffer[:0]) of a CMAC/AES hash returns 16 bytes; explicit panic only if hash.Write fails, which the hash.Hash contract forbids"},
 	"pkg/slayers/path.MAC":                     {1, "FullMAC returns the 16-byte Sum"},
 	"pkg/experimental/epic.prepareMacInput":    {2, "inputBuffer has MACBufferSize = 48 bytes (CalcMac enforces it); 23 + len(RawSrcAddr) <= 39 and inputLength <= 48"},
@@ -152,7 +158,6 @@ var c08Audited = map[string]c08Audit{
 	"(*router.serializeProxy).Bytes":        {1, "start <= len(data) is an invariant of the proxy (start only decreases from a valid offset)"},
 	"(*router.serializeProxy).clear":        {1, "newSerializeProxyStart passes an offset inside the buffer"},
 	"router.getDstPortSCMP":                 {5, "type assertions on layers produced by gopacket decoders registered for exactly these layer types; decodeSCMP returned two serializable layers, the second being the gopacket.Payload"},
-	"pkg/log.convertCtx":                    {3, "logging helper: the loop condition i+1 < len(ctx) bounds both indexes; keys at even positions are string literals at the call sites"},
 	"(*private/drkey/drkeyutil.FakeProvider).GetKeyWithinAcceptanceWindow": {3, "getASHostTriple returns a three-element slice literal or an error that is tested first"},
 	"(pkg/addr.Host).IP":                    {1, "explicit panic if the host is not an IP address: callers test Type() first"},
 	"(pkg/addr.Host).SVC":                   {1, "explicit panic if the host is not an SVC address: callers test Type() first"},
@@ -232,7 +237,17 @@ func runC08(c *Ctx) {
 			continue
 		}
 		audited += len(sites)
+		if os.Getenv("SCIONVET_AUDIT") != "" && len(sites) < a.Max {
+			fmt.Printf("AUDIT-SLACK %s: %d open, audit allows %d\n", n, len(sites), a.Max)
+		}
 		c.OK(rule, n+":open-sites", sites[0].In.Pos(), fmt.Sprintf("%d audited site(s): %s", len(sites), a.Reason))
+	}
+	if os.Getenv("SCIONVET_AUDIT") != "" {
+		for n, a := range c08Audited {
+			if _, used := perFn[n]; !used && a.Max > 0 {
+				fmt.Printf("AUDIT-UNUSED %s (allows %d)\n", n, a.Max)
+			}
+		}
 	}
 	var disc []string
 	for k, v := range counts {
